@@ -609,6 +609,8 @@ type Backends struct {
 	shards         []map[string]*Backend
 	changedShards  map[int]bool
 	DefaultBackend *Backend
+	// id of the default backend when the state was committed
+	defaultBackendCommitted string
 }
 
 // BackendID ...
